@@ -234,7 +234,10 @@ def run(c):
     if kind == 'df':
         from rsatoolbox.data import Dataset
         df = d.to_df(channel_descriptor='cid')
-        back = Dataset.from_df(df, channels=list(df.columns[:d.n_channel]), channel_descriptor='cid')
+        chs = list(df.columns[:d.n_channel])
+        if rng.random() < 0.6:
+            rng.shuffle(chs)          # the caller's channel order need not be the column order of the frame
+        back = Dataset.from_df(df, channels=chs, channel_descriptor='cid')
         rows = []
         for i in range(back.n_obs):
             def get(k):
@@ -440,9 +443,13 @@ def oracle(c, o):
                 return f'average_dataset_by: mean/count of label {v} is not that of exactly its rows'
         return None
     if kind == 'df':
-        if o['rows'] != init['obs'] or o['vals'] != [[cell[0] for cell in row] for row in init['vals']] \
-                or o['cids'] != [t[0] for t in init['chans']]:
-            return 'DataFrame round trip changed rows, their descriptors or the channel labels'
+        src_cids = [t[0] for t in init['chans']]
+        if o['rows'] != init['obs'] or sorted(o['cids']) != sorted(src_cids):
+            return 'DataFrame round trip changed rows, their descriptors or the set of channel labels'
+        for j, cid in enumerate(o['cids']):
+            k = src_cids.index(cid)
+            if [r[j] for r in o['vals']] != [row[k][0] for row in init['vals']]:
+                return f'DataFrame round trip: the column labelled {cid} does not hold the data of channel {cid}'
         return None
     if kind == 'tensor':
         keys = [t[o['col']] for t in init['obs']]
